@@ -155,8 +155,8 @@ def verify(run, make_engine, tag_prefix="group"):
             tag = f"{tag_prefix}/axis{axis}/r{rank}"
             if not run.expect_paths(res, f"{tag}", inst):
                 continue
-            run.add(f"{tag}/arith-hints", [c for c in dpos] + [G >= 1, ag >= 1, zi(n) == G * ag],
-                    z3.And(*hints(ds, k, n, G, ag)), "helper", inst, {"function": "group (arithmetic hints)"})
+            # the arithmetic hints are instances of lemmas/Arith.lean `group_hints` (Lean/Mathlib; compiled in the thorough tier):
+            # they are not re-proved by the SMT solvers on every run (nonlinear div/mod: unstable)
             nret = 0
             for pi, r in enumerate(res):
                 if r.outcome == "raise":
